@@ -81,6 +81,13 @@ func oracleC11(c *props.Case) props.Verdict {
 	if changed {
 		classes = append(classes, "c11:diff-nonempty")
 	}
+	if sc.Family == "panos" && sc.Dirty > 0 {
+		who := "login-user"
+		if sc.DirtyAdmin != "" {
+			who = "other-admin"
+		}
+		classes = append(classes, "c11:panos:uncommitted-changes-of-"+who)
+	}
 	return props.PassV(changed, classes...)
 }
 
